@@ -47,7 +47,10 @@ def _case(draw, tier):
             "burn_in": draw(st.sampled_from([False, False, True])),
             # explicit adjoint_params: None = default (all parameters), else (selection seed, keep mask seed): a drawn
             # sub-list of the module's parameters in a drawn order (not a prefix of the module's own order in general)
-            "adjoint_params": draw(st.one_of(st.none(), st.none(), st.integers(0, 2 ** 20)))}
+            "adjoint_params": draw(st.one_of(st.none(), st.none(), st.integers(0, 2 ** 20))),
+            # regime switch: from a drawn grid time on the diffusion is a constant without state or parameters (whether g
+            # carries an autograd graph then depends on t)
+            "gswitch": draw(st.sampled_from([None, None, None, 0.25, 0.5, 0.75]))}
 
 
 def strategy(tier):
@@ -61,6 +64,9 @@ def run_case(case):
     ts = torch.tensor([t0] + [t0 + c * dt for c in case["cuts"]], dtype=torch.float64)
     g = torch.Generator().manual_seed(case["wseed"])
     grads = []
+    if case.get("gswitch") is not None:
+        n_steps = case["cuts"][-1]
+        spec = dict(spec, gswitch=t0 + max(1, round(case["gswitch"] * n_steps)) * dt)
     for adjoint in (False, True):
         sde = sdes.build_generic(spec)
         y0 = sdes.y0_for(spec).requires_grad_(case["y0_grad"])
@@ -158,5 +164,7 @@ def run_case(case):
         labels.append("resumed_after_no_grad_burn_in")
     if case.get("adjoint_params") is not None:
         labels.append("explicit_adjoint_params_sublist")
+    if case.get("gswitch") is not None:
+        labels.append("diffusion_regime_switch")
     return Result(nontrivial=n >= 4 and len(case["cuts"]) >= 2, labels=labels, checks=checks,
                   metrics={"grad_relerr": worst, "steps": n})
